@@ -20,7 +20,8 @@ ANCHORS = ("ladim/model.py", "ladim/main.py")
 RULE = ("whole-model runs with recording shims on all eight modules (cold start, and warm start from a completed "
         "file of a previous run), all run lengths and output periods, the IBM given by absolute path, by a path "
         "relative to the working directory with and without .py while an importable decoy of the same name exists, "
-        "or by dotted module name; a sampled half goes through ladim.main.main(). Oracle over the recorded call log "
+        "by two files of the same base name in different directories (IBM and forcing), or by dotted module name; every "
+        "run's plug-in copy carries a token unique to the run, many runs share one worker process; a sampled half goes through ladim.main.main(). Oracle over the recorded call log "
         "and snapshots: per step exactly time, release, forcing, [write], tracker, ibm once each; Nsteps steps; close "
         "once per module that has one; forcing evaluated on the state that already holds the step's new particles; "
         "the record written from that very state with forcing-derived variables valid at t; the IBM sees the moved "
@@ -33,7 +34,7 @@ COMPONENTS = {"real": ["Model.__init__/update/finish", "ladim.main.main (sampled
 ASSUMPTIONS = ["the shims override only methods the base classes have and delegate unchanged"]
 TIERS = {"quick": dict(runs=500, budget_s=50, shrink=100),
          "thorough": dict(runs=50000, budget_s=900, shrink=200)}
-REQUIRED_PROBES = ["cold", "warm", "via_main", "plugin_relative_path", "plugin_module_name", "ibm_kill_checked",
+REQUIRED_PROBES = ["cold", "warm", "via_main", "plugin_relative_path", "plugin_module_name", "plugin_same_basename_two_dirs", "ibm_kill_checked",
                    "late_release", "scalar_in_record"]
 
 PROFILE = gen.profile(
@@ -51,7 +52,7 @@ def generate(seed: int, tier: str, idx: int) -> dict:
     sc = gen.gen_scenario(seed, PROFILE)
     sc["output"]["layout"] = sc["output"].get("layout", "sparse")
     plan = {"start": s.wpick([("cold", 3), ("warm", 2)]),
-            "plugin": s.pick(["abs", "rel", "rel_py", "name"]),
+            "plugin": s.pick(["abs", "rel", "rel_py", "name", "twin"]),
             "main": s.chance(0.5)}
     if plan["start"] == "warm":
         sc["output"].pop("layout", None)        # warm start reads the sparse format
@@ -82,13 +83,33 @@ def _decoy() -> None:
         sys.path.append(str(DECOY_DIR))
 
 
-def _install_plugin(d: Path, how: str):
-    """returns the function that edits the configuration's ibm.module"""
+def _install_plugin(d: Path, how: str, twin: bool = False):
+    """returns the function that edits the configuration's ibm.module (and, for twin, forcing.module)
+
+    Every run gets its own copy of the plug-in carrying a token unique to the run, so that a loader that
+    hands back a module loaded earlier in the same process (another run's file of the same name) is seen."""
+    token = d.name
     src = (world.PLUGIN_DIR / "script_ibm.py").read_text()
     marked = src.replace("        r = recorder.REC\n        if r is not None:\n            r.on_init(\"ibm\", self, modules)",
-                         "        r = recorder.REC\n        if r is not None:\n            r.plugin_marks.append('file')\n"
+                         f"        r = recorder.REC\n        if r is not None:\n            r.plugin_marks.append('file:{token}')\n"
                          "            r.on_init(\"ibm\", self, modules)")
     assert marked != src
+    if twin:
+        # the IBM and the forcing come from two different files with the same base name
+        (d / "a").mkdir(exist_ok=True)
+        (d / "b").mkdir(exist_ok=True)
+        (d / "a" / "plug.py").write_text(marked)
+        shim = (world.PLUGIN_DIR / "shim.py").read_text()
+        (d / "b" / "plug.py").write_text(shim + f"\n\n_orig_init = Forcing.__init__\n\n\ndef _init(self, modules, *a, **k):\n"
+                                         f"    _orig_init(self, modules, *a, **k)\n    r = _rec()\n    if r is not None:\n"
+                                         f"        r.plugin_marks.append('forcing:{token}')\n\n\nForcing.__init__ = _init\n")
+
+        def edit_twin(cfg):
+            cfg["ibm"]["module"] = str(d / "a" / "plug.py")
+            cfg["forcing"]["module"] = str(d / "b" / "plug")
+            return cfg
+
+        return edit_twin
     if how in ("rel", "rel_py"):
         _decoy()
         (d / "myibm.py").write_text(marked)
@@ -213,7 +234,7 @@ def execute(sc) -> Result:
     d = world.new_dir()
     ref = refmodel.RefWorld(sc)
     try:
-        edit = _install_plugin(d, pl["plugin"])
+        edit = _install_plugin(d, pl["plugin"], twin=pl["plugin"] == "twin")
         if pl["start"] == "cold":
             run = driver.run_scenario(sc, d, cfg_edit=edit, use_main=pl["main"], probe_fracs=(0.0,))
             account_run(res, run, sc)
@@ -250,9 +271,12 @@ def execute(sc) -> Result:
             res.probes["plugin_relative_path"] += 1
         if pl["plugin"] == "name":
             res.probes["plugin_module_name"] += 1
+        if pl["plugin"] == "twin":
+            res.probes["plugin_same_basename_two_dirs"] += 1
         marks = run.rec.plugin_marks
-        if pl["plugin"] != "name" and marks != ["file"]:
-            res.add(Violation("C19.plugin_precedence", None, f"ibm.module spelled {pl['plugin']}", marks, ["file"]))
+        want = [f"file:{d.name}"] if pl["plugin"] != "twin" else [f"forcing:{d.name}", f"file:{d.name}"]
+        if pl["plugin"] != "name" and marks != want:
+            res.add(Violation("C19.plugin_precedence", None, f"ibm.module spelled {pl['plugin']}", marks, want))
         ipre, ipost = check_protocol(res, sc, run, first, last, ref)
         stem = "out" if pl["start"] == "cold" else "warm"
         R = readback.Records(readback.list_output_files(d, stem))
